@@ -1015,9 +1015,16 @@ func (c *callable) Value(env *env) reflect.Value {
 			}
 			panic(err)
 		}
+		// The function has been executed at the base of the stack.
+		nvm.fp = [4]Addr{0, 0, 0, 0}
 		if fn.Macro {
 			b := nvm.renderer.Out().(*strings.Builder)
 			nvm.setString(1, b.String())
+		} else if regs := fn.FinalRegs; regs != nil {
+			// The Return instruction copies the result parameters that
+			// escape into the result registers only if there is a caller
+			// in the virtual machine.
+			nvm.finalize(regs)
 		}
 		r = [4]int8{1, 1, 1, 1}
 		for _, result := range results {
